@@ -17,10 +17,10 @@ res=""
 # 1. demo passes without the patch
 cp $demo $demodir/zz_seed_demo_test.go
 rel=$(realpath --relative-to=$wt/$MODDIR $wt/$demodir)
-run ./$rel -run 'TestC[0-9]+|Demo|Seed' > /tmp/wtc/$id.demo_clean.log; r1=$?
+run ./$rel -run "${DEMO_RUN:-TestC[0-9]+|Demo|Seed}" > /tmp/wtc/$id.demo_clean.log; r1=$?
 # 2. apply the patch: demo fails
 git apply $src/patch.diff || { echo "patch does not apply"; exit 2; }
-run ./$rel -run 'TestC[0-9]+|Demo|Seed' > /tmp/wtc/$id.demo_patched.log; r2=$?
+run ./$rel -run "${DEMO_RUN:-TestC[0-9]+|Demo|Seed}" > /tmp/wtc/$id.demo_patched.log; r2=$?
 # 3. existing tests (without the demo) pass with the patch
 rm -f $demodir/zz_seed_demo_test.go
 run $pkgs > /tmp/wtc/$id.tests_patched.log; r3=$?
